@@ -34,6 +34,7 @@ type c18Op struct {
 	Kind  int // 0 add 1 remove 2 contains 3 getfacts 4 merge 5 count 6 list
 	Atom  int // universe index (add/remove/contains) or pattern id
 	Const bool
+	Sub   int // kind 7 (operation on the merge source): 0 write that changes nothing, 1 contains
 }
 
 type c18In struct {
@@ -57,6 +58,16 @@ type lockCheckStore struct {
 	inner factstore.FactStoreWithRemove
 	r     *simrt.Run
 	bad   *[]string
+	// cand is the lockset of this base store (Eraser): the locks that every
+	// access so far held in a sufficient mode. An empty set after two
+	// accesses means no single lock protects the store.
+	cand *lockCand
+	name string
+}
+
+type lockCand struct {
+	init  bool
+	locks []string
 }
 
 func (l lockCheckStore) check(op string, write bool) {
@@ -77,6 +88,33 @@ func (l lockCheckStore) check(op string, write bool) {
 			mode = "write"
 		}
 		*l.bad = append(*l.bad, fmt.Sprintf("base.%s entered without the store's %s lock (held: %v)", op, mode, held))
+	}
+	if l.cand != nil {
+		var adequate []string
+		for _, h := range held {
+			if strings.HasSuffix(h, "#w") {
+				adequate = append(adequate, strings.TrimSuffix(h, "#w"))
+			} else if !write && strings.HasSuffix(h, "#r") {
+				adequate = append(adequate, strings.TrimSuffix(h, "#r"))
+			}
+		}
+		if !l.cand.init {
+			l.cand.init, l.cand.locks = true, adequate
+		} else {
+			var keep []string
+			for _, c := range l.cand.locks {
+				for _, a := range adequate {
+					if a == c {
+						keep = append(keep, c)
+						break
+					}
+				}
+			}
+			if len(keep) == 0 && len(l.cand.locks) > 0 && len(*l.bad) < 4 {
+				*l.bad = append(*l.bad, fmt.Sprintf("%s: base.%s entered holding %v, earlier accesses were protected by %v: no common lock protects this store", l.name, op, held, l.cand.locks))
+			}
+			l.cand.locks = keep
+		}
 	}
 	s.SyncPoint("base." + op)
 }
@@ -147,7 +185,7 @@ func runC18A(r *simrt.Run, tier Tier) Outcome {
 	}
 	kind := r.Choose(4, "c18.base")
 	var bad []string
-	base := lockCheckStore{inner: newRemovable(kind), r: r, bad: &bad}
+	base := lockCheckStore{inner: newRemovable(kind), r: r, bad: &bad, cand: &lockCand{}, name: "the store"}
 	store := factstore.NewConcurrentFactStore(base)
 	// initial contents
 	var initMask uint16
@@ -165,6 +203,19 @@ func runC18A(r *simrt.Run, tier Tier) Outcome {
 			other.Add(atoms[i])
 			mergeMask |= 1 << i
 		}
+	}
+	// In half of the runs the merge source is itself a ConcurrentFactStore
+	// that other tasks use while it is being merged. Those tasks only issue
+	// operations that leave its contents as they are (Add of a member, Remove
+	// of a non-member, Contains), so that Merge(source) keeps one meaning for
+	// the model of the destination; what is checked on the source is that every
+	// access to its base happens under its own lock, and the results.
+	concSrc := r.Bool("c18.concsrc")
+	var mergeSrc factstore.ReadOnlyFactStore = other
+	var srcStore factstore.ConcurrentFactStore
+	if concSrc {
+		srcStore = factstore.NewConcurrentFactStore(lockCheckStore{inner: other, r: r, bad: &bad, cand: &lockCand{}, name: "the merge source"})
+		mergeSrc = srcStore
 	}
 	// patterns for GetFacts: all p, all q, p(const), q(const, _), q(_, const)
 	type pat struct {
@@ -207,12 +258,18 @@ func runC18A(r *simrt.Run, tier Tier) Outcome {
 		for j := 0; j < n; j++ {
 			r.Tape.Mark()
 			k := []int{0, 0, 0, 1, 1, 2, 2, 3, 3, 4, 5, 6}[r.Choose(12, "c18.op")]
+			if concSrc && r.OneIn(4, "c18.op.onsrc") {
+				k = 7
+			}
 			op := c18Op{Kind: k}
 			switch k {
 			case 0, 1, 2:
 				op.Atom = r.Choose(len(uni), "c18.op.atom")
 			case 3:
 				op.Atom = r.Choose(len(pats), "c18.op.pat")
+			case 7:
+				op.Atom = r.Choose(len(uni), "c18.op.srcatom")
+				op.Sub = r.Choose(2, "c18.op.srcsub")
 			case 4:
 				// now and then the store is merged into itself (a set union with itself: no change)
 				if r.OneIn(4, "c18.op.selfmerge") {
@@ -239,6 +296,26 @@ func runC18A(r *simrt.Run, tier Tier) Outcome {
 		names[t] = fmt.Sprintf("T%d", t)
 		fns[t] = func() {
 			for _, op := range ops[t] {
+				if op.Kind == 7 {
+					// an operation on the merge source that does not change it
+					member := mergeMask&(1<<op.Atom) != 0
+					var got bool
+					var what string
+					switch {
+					case op.Sub == 1:
+						got, what = srcStore.Contains(atoms[op.Atom]) != member, "Contains"
+					case member:
+						got, what = srcStore.Add(atoms[op.Atom]), "Add(member)"
+					default:
+						got, what = srcStore.Remove(atoms[op.Atom]), "Remove(non-member)"
+					}
+					if got && len(bad) < 4 {
+						bad = append(bad, fmt.Sprintf("merge source: %s of %s answered wrongly (contents %s)", what, uni[op.Atom].Key(), maskStr(mergeMask, uni)))
+					}
+					opDesc = append(opDesc, fmt.Sprintf("T%d source.%s(%s)", t, what, uni[op.Atom].Key()))
+					r.Logf("%s", opDesc[len(opDesc)-1])
+					continue
+				}
 				in := c18In{Kind: op.Kind, Atom: op.Atom}
 				var out c18Out
 				call := int64(r.Seq())
@@ -271,7 +348,7 @@ func runC18A(r *simrt.Run, tier Tier) Outcome {
 						store.Merge(store)
 					} else {
 						in.Mask = mergeMask
-						store.Merge(other)
+						store.Merge(mergeSrc)
 					}
 				case 5:
 					out.N = store.EstimateFactCount()
@@ -311,7 +388,7 @@ func runC18A(r *simrt.Run, tier Tier) Outcome {
 	}
 	sched.RunTasks(names, fns)
 	hist := strings.Join(opDesc, "\n  ")
-	ctx := fmt.Sprintf("base=%s initial=%s merge-set=%s tasks=%d\nhistory (call,return stamps are global event numbers):\n  %s", removableNames[kind], maskStr(initMask, uni), maskStr(mergeMask, uni), nTasks, hist)
+	ctx := fmt.Sprintf("base=%s initial=%s merge-set=%s concurrent-merge-source=%v tasks=%d\nhistory (call,return stamps are global event numbers):\n  %s", removableNames[kind], maskStr(initMask, uni), maskStr(mergeMask, uni), concSrc, nTasks, hist)
 	for _, t := range sched.Tasks {
 		if t.Panic != nil {
 			return Violation("C18/panic", "task %s panicked: %v\n%s\n%s", t.Name, t.Panic, trimStack(t.PanicStack), ctx)
@@ -370,6 +447,9 @@ func runC18A(r *simrt.Run, tier Tier) Outcome {
 	}
 	if overlaps > 0 {
 		r.Probe("overlapping-operation-pairs")
+	}
+	if concSrc {
+		r.Probe("merge-source-is-a-concurrent-store-in-use")
 	}
 	return Outcome{Nontrivial: overlaps >= 1 && len(history) >= 4, DistinctKey: sched.InterleavingHash() | 1,
 		Sample: map[string]any{"part": "A", "base": removableNames[kind], "history": opDesc, "switches": sched.Switches}}
